@@ -267,9 +267,18 @@ def wiring(P, R, H):
             return False
         al = rules.May(P, lambda x: P.call_slot(x) == 'iauth_module::pre_registered', may=False)
         return al.site_may(t)
+    # the broadcast may be written out in the verdict function itself: then "notified" means the broadcast loop was
+    # passed (its body may run zero times when no module has a handler)
+    heads = set()
+    for t in acc.calls():
+        if P.call_slot(t) == 'iauth_module::pre_registered':
+            loop = {b for b in acc.reach([t.bid]) if t.bid in acc.reach([b])}
+            heads |= {b for b in loop if any(e.src not in loop for e in acc.inn[b])}
     for s in V:
         p = acc.path_avoiding(None, notifies, target=s.bid, from_entry=True)
         inb = any(notifies(t) for t in acc.block_sites(s.bid)[:s.idx])
+        if not (p is None or inb) and heads:
+            p = None if s.bid not in acc.reach([acc.entry], cut_blocks=heads) else p
         R.ob('C11.WIRE.1', p is None or inb, s, 'the pre_registered notification precedes the verdict line %r' % rules.fmt_literal(s.ev, 1), key='before-verdict')
     reg = [s for f in P.unit_fns(UNIT) for s in f.calls('iauth_register_module')]
     R.ob('C11.WIRE.1', len(reg) == 1, reg[0] if reg else H, 'the class module registers its descriptor', key='registered', nontrivial=False)
